@@ -277,7 +277,7 @@ def search(acc: Acc, tier, shard, nshards):
 
     def body(data):
         ch = model.Ch(data.draw)
-        doc = model.Gen(ch, prof).document()
+        doc = model.any_document(model.Gen(ch, prof))
         src, placed = render_with_comments(doc, ch)
         kinds = collections.Counter((p["kind"], p["claimed"]) for p in placed)
         nt = len(placed) >= 3 and kinds[("eol", True)] >= 1 and kinds[("above", True)] >= 1
